@@ -1,1 +1,42 @@
-// harness bodies for h2 src/frame/window_update.rs (compiled in-crate as `verif_h`, feature "verif")
+// harness bodies for h2 src/frame/window_update.rs
+use super::*;
+use crate::frame::head::verif_h::ref_parse_head;
+
+pub fn c12_rt_window_update() {
+    let flags: u8 = kani::any();
+    let sid: u32 = kani::any();
+    kani::assume(sid <= 0x7fff_ffff);
+    let bytes: [u8; 6] = kani::any();
+    let n: usize = kani::any();
+    kani::assume(n <= 6);
+    let head = Head::new(Kind::WindowUpdate, flags, StreamId::from(sid));
+    let r = WindowUpdate::load(head, &bytes[..n]);
+    let raw = u32::from_be_bytes([bytes[0], bytes[1], bytes[2], bytes[3]]);
+    match &r {
+        Ok(p) => {
+            assert!(n == 4, "WINDOW_UPDATE with length != 4 accepted");
+            assert!(p.size_increment() == raw & 0x7fff_ffff, "increment: reserved bit must be ignored");
+            assert!(p.size_increment() != 0, "zero increment accepted");
+            assert!(p.size_increment() <= 0x7fff_ffff);
+            assert!(u32::from(p.stream_id()) == sid);
+            let mut out = [0u8; 13];
+            let mut dst = &mut out[..];
+            p.encode(&mut dst);
+            assert!(dst.len() == 0);
+            let mut hb = [0u8; 9];
+            hb.copy_from_slice(&out[..9]);
+            let (l, t, f, r, s) = ref_parse_head(&hb);
+            assert!(l == 4 && t == 8 && f == 0 && !r && s == sid, "WINDOW_UPDATE head on the wire");
+            assert!(u32::from_be_bytes([out[9], out[10], out[11], out[12]]) == p.size_increment());
+            let q = WindowUpdate::load(Head::parse(&out[..9]), &out[9..]).unwrap();
+            assert!(q == *p, "WINDOW_UPDATE round trip");
+        }
+        Err(e) => {
+            assert!(n != 4 || raw & 0x7fff_ffff == 0, "legal WINDOW_UPDATE rejected");
+            assert!(*e == if n != 4 { Error::BadFrameSize } else { Error::InvalidWindowUpdateValue });
+        }
+    }
+    kani::cover!(r.is_ok() && raw >> 31 == 1, "ok_reserved_bit");
+    kani::cover!(r.is_err() && n == 4, "zero_increment");
+    kani::cover!(true, "end");
+}
